@@ -56,7 +56,8 @@ var (
 	haproxyReqCaptureFormAll    = "http://localhost:" + haproxyManagePort + "/capture_req_all"
 )
 
-var regexToFindPathParameters = regexp.MustCompile(`/\{[a-zA-Z0-9-_]+\}`)
+// A whole path segment that is a path parameter, e.g. {userID}
+var regexPathParameterSegment = regexp.MustCompile(`^\{[a-zA-Z0-9-_]+\}$`)
 
 type HAProxyEndpointData struct {
 	Endpoint     string
@@ -138,19 +139,22 @@ func HaproxyEndpointFormat(
 	requirements *stream_types.ProcessorRequirement,
 ) *HAProxyEndpointData {
 	log.Trace().Msgf("Original URL: %v", url)
-	url = strings.ReplaceAll(url, ".", `\.`)
-	formattedURL := url
 	wildcardLiteral := "/*"
-	var hasWildcard bool
-	if strings.HasSuffix(formattedURL, wildcardLiteral) {
-		hasWildcard = true
-		formattedURL = strings.TrimSuffix(formattedURL, wildcardLiteral)
+	hasWildcard := strings.HasSuffix(url, wildcardLiteral)
+	url = strings.TrimSuffix(url, wildcardLiteral)
+	// Every segment is matched literally (regex metacharacters quoted), except path parameters
+	segments := strings.Split(url, "/")
+	for i, segment := range segments {
+		if i > 0 && regexPathParameterSegment.MatchString(segment) {
+			segments[i] = strings.TrimPrefix(RegexToReplacePathParameters, "/")
+		} else {
+			segments[i] = regexp.QuoteMeta(segment)
+		}
+	}
+	formattedURL := strings.Join(segments, "/")
+	if hasWildcard {
 		formattedURL += RegexToReplaceWildcard
 	}
-	formattedURL = regexToFindPathParameters.ReplaceAllString(
-		formattedURL,
-		RegexToReplacePathParameters,
-	)
 	log.Trace().Msgf("Formatted URL: %v", formattedURL)
 	result := strings.Join([]string{method, formattedURL}, delimiter)
 	if !hasWildcard {
